@@ -91,12 +91,8 @@ class Lockstep:
         self.stats = stats if stats is not None else Counter()
         from . import harness as _harness
 
-        _harness.CONFIG_EXTRA.clear()
-        _harness.CONFIG_EXTRA.update(case.get("config_extra") or {})
-        try:
+        with _harness.options(case["config_extra"] if "config_extra" in case else dict(_harness.CONFIG_EXTRA)):
             self.gateway, self.transport = new_gateway(None, metric=case.get("metric", True))
-        finally:
-            _harness.CONFIG_EXTRA.clear()
         self.model = Model(metric=case.get("metric", True))
         if case.get("version") is not None:
             self.gateway.protocol_version = case["version"]
